@@ -223,7 +223,7 @@ CLOSE = {
     'src': {'file': TD, 'kind': 'fn', 'name': 'on_did_close_document'},
     'rules': HANDLER_RULES + [
         'letchain-nest',
-        ('c24-shared-state', {'calls': (('analysis', 'get_file_id'), ('mut_analysis', 'remove_file_by_uri'))}), 'c24-ghost-param'],
+        ('c24-shared-state', {'calls': (('analysis', 'get_file_id'), ('mut_analysis', 'remove_file_by_uri'), ('mut_analysis', 'update_file_by_uri'))}), 'c24-ghost-param'],
     'attrs': SPIN,
     'ret': 'r',
     'ensures': '''
@@ -231,8 +231,13 @@ CLOSE = {
             // belonging to a workspace / library (no ModuleInfo), is REMOVED from the analysis before the handler returns ...
             !%(A)s.in_task() && close_removes(%(A)s, params.text_document.uri)
                 ==> now(%(A)s, %(B)s, (params.text_document.uri, None)) /*@C27.close.non-workspace-document-removed-before-returning*/,
-            // ... every other document (a workspace / library file on disk) stays in the analysis with its last text
-            !%(A)s.in_task() && !close_removes(%(A)s, params.text_document.uri) ==> %(B)s == %(A)s /*@C27.close.workspace-file-keeps-last-text*/,
+            // ... a document the analysis knows, a workspace / library file on disk: the editor's text is no longer the truth — the analysis is given
+            // what the FILE holds (`(uri, sp_disk_text(p))`: an update with the disk text, or a removal when the file cannot be read)
+            !%(A)s.in_task() && !close_removes(%(A)s, params.text_document.uri) && %(A)s.known.contains(params.text_document.uri)
+                ==> (sp_path(params.text_document.uri) matches Some(p)
+                    ==> now(%(A)s, %(B)s, (params.text_document.uri, sp_disk_text(p)))) /*@C27.close.closed-document-drops-editor-text*/,
+            // ... a document the analysis does not know (or a module without a file path): nothing to forget
+            !%(A)s.in_task() && close_effect(%(A)s, params.text_document.uri) is None ==> %(B)s == %(A)s /*@C27.close.unknown-document-untouched*/,
             %(A)s.in_task() ==> in_task_frame(%(A)s, %(B)s)''' % {'A': A, 'B': B},
 }
 
@@ -296,7 +301,7 @@ UNIT = {
         'EmmyrcDiagnostic': {'src': {'file': CA + 'config/configs/diagnostics.rs', 'kind': 'struct', 'name': 'EmmyrcDiagnostic'},
                              'rules': [('struct-fields', {'keep': ['diagnostic_interval']})]},
         'EmmyrcWorkspace': {'src': {'file': CA + 'config/configs/workspace.rs', 'kind': 'struct', 'name': 'EmmyrcWorkspace'},
-                            'rules': [('struct-fields', {'keep': ['enable_reindex']})]},
+                            'rules': [('struct-fields', {'keep': ['encoding', 'enable_reindex']})]},
         'on_did_open_text_document': OPEN,
         'on_did_change_text_document': CHANGE,
         'on_did_close_document': CLOSE,
@@ -401,9 +406,16 @@ UNIT = {
         {'name': 'close-keeps-a-document-that-is-not-on-disk', 'item': 'on_did_close_document',
          'pattern': r'mut_analysis\.remove_file_by_uri\(uri\);', 'repl': '',
          'expect': r'C27\.close\.non-workspace-document-removed-before-returning'},
-        {'name': 'close-removes-a-workspace-file', 'item': 'on_did_close_document',
-         'pattern': r'if module_info\.is_none\(\) \{', 'repl': 'if module_info.is_none() || true {',
-         'expect': r'C27\.close\.workspace-file-keeps-last-text'},
+        {'name': 'close-keeps-the-editor-text', 'item': 'on_did_close_document',
+         'pattern': r'\} else if let Some\(path\) = uri_to_file_path\(uri\) \{.*?\n    \}\n(\s*Some\(\(\)\)\s*\}\s*)$', 'repl': r'}\n\1',
+         'expect': r'C27\.close\.closed-document-drops-editor-text'},
+        {'name': 'close-keeps-the-editor-text-when-the-file-is-unreadable', 'item': 'on_did_close_document',
+         'pattern': r'None => \{\s*mut_analysis\.remove_file_by_uri\(uri\);\s*\}', 'repl': 'None => {}',
+         'expect': r'C27\.close\.closed-document-drops-editor-text'},
+        {'name': 'close-rereads-a-document-the-analysis-does-not-know', 'item': 'on_did_close_document',
+         'pattern': r'let file_id = analysis\.get_file_id\(uri\)\?;\s*let module_info = analysis\s*\.compilation\s*\.get_db\(\)\s*\.get_module_index\(\)\s*\.get_module\(file_id\);',
+         'repl': 'let module_info = match analysis.get_file_id(uri) { Some(file_id) => analysis.compilation.get_db().get_module_index().get_module(file_id), None => Some(vx_any_module()) };',
+         'expect': r'C27\.close\.unknown-document-untouched'},
         {'name': 'loop-drops-the-notification', 'item': 'ServerMessageProcessor::handle_message',
          'pattern': r'(on_notification_handler\(notify, server_context\)\.await\?;)', 'repl': r'if false { \1 }',
          'expect': r'C27\.loop\.notification-handled-before-the-next-message'},
